@@ -74,6 +74,14 @@ def problems(state, allow_missing_parent=False):
                 out.append(("dangling-child-flow", f"flow {fs.flow_id} child uids missing: {len(h_flow_refs)}"))
             if fs.parent_uid and fs.parent_uid not in state.flow_states and not allow_missing_parent:
                 out.append(("dangling-parent", f"flow {fs.flow_id} parent missing"))
+            elif fs.parent_uid and fs.parent_uid in state.flow_states:
+                par = state.flow_states[fs.parent_uid]
+                # (a restarted activated flow hangs below its own earlier instance: same flow id, legal)
+                # (an activated flow with several activators outlives the activator that happened to start it)
+                if par.status in (FlowStatus.FINISHED, FlowStatus.STOPPED) and par.flow_id != fs.flow_id and fs.activated == 0:
+                    # started by (or left behind under) an instance that is over: that instance acted after its end
+                    out.append(("running-flow-below-finished-instance",
+                                f"flow {fs.flow_id} ({fs.status.name}) is running below {par.flow_id} which is {par.status.name}"))
             for sname, (fl, ac) in fs.scopes.items():
                 for a in ac:
                     if a not in state.actions:
